@@ -531,7 +531,30 @@ theorem inv_create {s s' : State} {m : CreateMsg} (hs : Inv s) (h : stepCreate s
 
 theorem updateContext_state {c c' : Ctx} {m : EditMsg} (h : updateContext c m = some c') : c'.state = c.state := by
   unfold updateContext at h
-  repeat (split at h; · cases h)
+  by_cases h1 : c.state = .completed
+  · rw [if_pos h1] at h; cases h
+  rw [if_neg h1] at h
+  by_cases h2 : maxProviders < m.providers.length
+  · rw [if_pos h2] at h; cases h
+  rw [if_neg h2] at h
+  by_cases h3 : hasDup m.providers = true
+  · rw [if_pos h3] at h; cases h
+  rw [if_neg h3] at h
+  by_cases h4 : m.timeout < 0
+  · rw [if_pos h4] at h; cases h
+  rw [if_neg h4] at h
+  by_cases h5 : (if m.providers.isEmpty then c.providers else m.providers).length < (if m.thr = 0 then c.thr else m.thr)
+  · rw [if_pos h5] at h; cases h
+  rw [if_neg h5] at h
+  by_cases h6 : m.cap ≠ .empty ∧ !capIsBase m.cap
+  · rw [if_pos h6] at h; cases h
+  rw [if_neg h6] at h
+  by_cases h7 : maxRequestTimeout < m.timeout
+  · rw [if_pos h7] at h; cases h
+  rw [if_neg h7] at h
+  by_cases h8 : (if m.freq = 0 then c.freq else m.freq) < u64OfInt (if m.timeout = 0 then c.timeout else m.timeout)
+  · rw [if_pos h8] at h; cases h
+  rw [if_neg h8] at h
   cases h; rfl
 
 theorem inv_edit {s s' : State} {m : EditMsg} (hs : Inv s) (h : stepEdit s m = .ok s') : Inv s' := by
@@ -586,7 +609,7 @@ theorem inv_edit {s s' : State} {m : EditMsg} (hs : Inv s) (h : stepEdit s m = .
         exact hold
 
 theorem inv_block {s : State} (dt : Nat) (cbs : List Cb) (hs : Inv s) :
-    Inv { applyCbs s cbs with now := (applyCbs s cbs).now + dt * 1000000000 } :=
+    Inv { applyCbs s cbs with now := (applyCbs s cbs).now + 1000000000 * dt } :=
   inv_of_fields rfl rfl rfl rfl rfl (inv_applyCbs cbs hs)
 
 /-- one accepted operation (message, service callback, block) preserves the invariants -/
@@ -627,5 +650,181 @@ theorem mirror_reachable (t : Nat) (ops : List Op) : Mirror (run { now := t } op
 
 theorem history_bounded_reachable (t : Nat) (ops : List Op) : Bounded (run { now := t } ops) :=
   (mirror_and_bound_run _ ops (inv_init t)).2.2
+
+/-! ### 5. the stored history is the newest part of everything ever produced, newest first -/
+
+/-- a completed-batch callback either stores nothing and produces nothing, or stores exactly the
+value it produces -/
+theorem cbDone_spec (s : State) (f : Name) (b thr : Nat) (outs : List String) :
+    (producedBy s f (.done f b thr outs) = [] ∧ cbDone s f b thr outs = s) ∨
+    (∃ fd d, AMap.get? s.feeds f = some fd ∧
+      producedBy s f (.done f b thr outs) = [{ data := d, time := s.now }] ∧
+      cbDone s f b thr outs =
+        { s with values := AMap.set s.values f (setFeedValue (valuesOf s f) b fd.hist { data := d, time := s.now }) }) := by
+  by_cases hthr : thr ≤ outs.length
+  · by_cases hl : outs.length = 0
+    · left; simp [producedBy, cbDone, handlerResponse, hl]
+    · cases hfd : AMap.get? s.feeds f with
+      | none => left; simp [producedBy, cbDone, handlerResponse, hthr, hl, hfd]
+      | some fd =>
+        by_cases hc : AMap.contains s.ctxs f = true
+        · cases ha : aggregateSpecs fd.agg outs with
+          | none => left; simp [producedBy, cbDone, handlerResponse, hthr, hl, hfd, hc, ha]
+          | some d =>
+            right
+            exact ⟨fd, d, rfl, by simp [producedBy, hthr, hl, hfd, hc, ha],
+              by simp [cbDone, handlerResponse, hthr, hl, hfd, hc, ha]⟩
+        · left; simp [producedBy, cbDone, handlerResponse, hthr, hl, hfd, hc]
+  · left; simp [producedBy, cbDone, hthr]
+
+theorem viewOf_of_values {s s' : State} (h : s'.values = s.values) (n : Name) : viewOf s' n = viewOf s n := by
+  simp [viewOf, valuesOf, h]
+
+theorem viewOf_cbState (s : State) (f : Name) (to : CtxState) (n : Name) :
+    viewOf (cbState s f to) n = viewOf s n := by
+  apply viewOf_of_values
+  unfold cbState
+  split; · rfl
+  split; · rfl
+  cases to <;> rfl
+
+/-- one callback: the new history is a prefix of (what it produced) ++ (the old history) -/
+theorem view_applyCb_prefix (s : State) (cb : Cb) (n : Name) (hs : Inv s) (hf : FreshCb s cb) :
+    viewOf (applyCb s cb) n <+: producedBy s n cb ++ viewOf s n := by
+  cases cb with
+  | state f to => simp [applyCb, producedBy, viewOf_cbState]
+  | done f b thr outs =>
+    simp only [applyCb]
+    by_cases hfn : f = n
+    · subst hfn
+      rcases cbDone_spec s f b thr outs with ⟨hp, he⟩ | ⟨fd, d, hfd, hp, he⟩
+      · rw [hp, he]; simp
+      · rw [hp, he]
+        have hh := (hs.2.2.1 f fd hfd).1
+        have : viewOf { s with values := AMap.set s.values f (setFeedValue (valuesOf s f) b fd.hist { data := d, time := s.now }) } f
+            = ({ data := d, time := s.now } :: viewOf s f).take fd.hist := by
+          unfold viewOf
+          rw [valuesOf_set_self]
+          exact view_setFeedValue _ _ _ _ hh hf
+        rw [this]
+        exact List.take_prefix _ _
+    · have hp : producedBy s n (.done f b thr outs) = [] := by simp [producedBy, hfn]
+      rw [hp]
+      rcases cbDone_spec s f b thr outs with ⟨_, he⟩ | ⟨fd, d, _, _, he⟩
+      · rw [he]; simp
+      · rw [he]
+        have : viewOf { s with values := AMap.set s.values f (setFeedValue (valuesOf s f) b fd.hist { data := d, time := s.now }) } n
+            = viewOf s n := by
+          unfold viewOf
+          rw [valuesOf_set_other _ _ _ _ hfn]
+        rw [this]; simp
+
+theorem view_applyCbs_prefix (s : State) (cbs : List Cb) (n : Name) (hs : Inv s) (hf : FreshCbs s cbs) :
+    viewOf (applyCbs s cbs) n <+: logCbs s n cbs ++ viewOf s n := by
+  induction cbs generalizing s with
+  | nil => simp [applyCbs, logCbs]
+  | cons cb r ih =>
+    have h1 := ih (applyCb s cb) (inv_applyCb cb hs) hf.2
+    have h2 := view_applyCb_prefix s cb n hs hf.1
+    have h3 : logCbs (applyCb s cb) n r ++ viewOf (applyCb s cb) n <+:
+        logCbs (applyCb s cb) n r ++ (producedBy s n cb ++ viewOf s n) :=
+      (List.prefix_append_right_inj _).2 h2
+    have := h1.trans h3
+    simpa [applyCbs, logCbs, List.append_assoc] using this
+
+/-- one operation of a history with growing batch counters -/
+theorem view_apply_prefix (s : State) (op : Op) (n : Name) (hs : Inv s) (hf : FreshOp s op) :
+    viewOf (apply s op) n <+: produced s n op ++ viewOf s n := by
+  unfold apply
+  cases h : step s op with
+  | error e =>
+    cases op with
+    | respond acc cbs =>
+      cases acc with
+      | true => simp [step] at h
+      | false => simp [produced]
+    | block dt cbs => simp [step] at h
+    | _ => simp [produced]
+  | ok s' =>
+    cases op with
+    | create m =>
+      obtain ⟨_, _, _, rfl⟩ := stepCreate_ok (by simpa [step] using h)
+      simp only [produced, List.nil_append]
+      rw [viewOf_of_values (s := s) rfl]; exact List.prefix_refl _
+    | start a b =>
+      obtain ⟨_, _, _, _, _, _, rfl⟩ := stepStart_ok (by simpa [step] using h)
+      simp only [produced, List.nil_append]
+      rw [viewOf_of_values (s := s) rfl]; exact List.prefix_refl _
+    | pause a b =>
+      obtain ⟨_, _, _, _, _, _, rfl⟩ := stepPause_ok (by simpa [step] using h)
+      simp only [produced, List.nil_append]
+      rw [viewOf_of_values (s := s) rfl]; exact List.prefix_refl _
+    | edit m =>
+      have := edit_trims s s' m h
+      simp only [produced, List.nil_append]
+      by_cases hn : n = m.name
+      · subst hn
+        rw [this.1]
+        split
+        · exact List.take_prefix _ _
+        · exact List.prefix_refl _
+      · rw [this.2 n hn]; exact List.prefix_refl _
+    | respond acc cbs =>
+      cases acc with
+      | false => simp [step] at h
+      | true =>
+        simp only [step, if_true] at h
+        cases h
+        exact view_applyCbs_prefix s cbs n hs hf
+    | block dt cbs =>
+      simp only [step] at h
+      cases h
+      simp only [produced]
+      have e : viewOf { applyCbs s cbs with now := (applyCbs s cbs).now + 1000000000 * dt } n
+          = viewOf (applyCbs s cbs) n := viewOf_of_values rfl n
+      rw [e]
+      exact view_applyCbs_prefix s cbs n hs hf
+    | bank =>
+      simp only [step] at h
+      cases h
+      simp [produced]
+
+/-- **C17(b)** for every history whose batch counters grow (as the service module guarantees), the
+stored history of every feed is a prefix of *all values ever produced for it, newest first*
+(followed by what was stored initially): it never reorders, never resurrects a dropped value and
+never keeps an older value while dropping a newer one. Together with `mirror_and_bound_run`
+(at most `latestHistory`), `done_appends` (a batch adds exactly one, cut to `latestHistory`) and
+`edit_trims` (an edit cuts to the new `latestHistory` at once) this pins the stored history to the
+newest `latestHistory` values. -/
+theorem history_is_newest_prefix (s : State) (ops : List Op) (n : Name) (hs : Inv s) (hf : FreshRun s ops) :
+    viewOf (run s ops) n <+: log s n ops ++ viewOf s n := by
+  induction ops generalizing s with
+  | nil => simp [run, log]
+  | cons op r ih =>
+    have h1 := ih (apply s op) (inv_apply s op hs) hf.2
+    have h2 := view_apply_prefix s op n hs hf.1
+    have h3 : log (apply s op) n r ++ viewOf (apply s op) n <+:
+        log (apply s op) n r ++ (produced s n op ++ viewOf s n) :=
+      (List.prefix_append_right_inj _).2 h2
+    have := h1.trans h3
+    simpa [run, log, List.append_assoc] using this
+
+/-- demo history used by the audit's non-vacuity evaluation: two feeds, a batch on each
+(one all-negative `max` batch, one `avg` batch), an automatic pause, a shrinking edit -/
+def demoOps : List Op :=
+  [ .create { name := "f1", creator := "A0", agg := "max", path := "last", hist := 2, desc := "", service := "price",
+              providers := ["P0", "P1"], thr := 1, timeout := 1, freq := 1, cap := .coin 100 "stake", input := "ok" },
+    .create { name := "f2", creator := "A1", agg := "avg", path := "last", hist := 3, desc := "", service := "price",
+              providers := ["P0", "P1"], thr := 2, timeout := 1, freq := 2, cap := .coin 100 "stake", input := "ok" },
+    .start "f1" "A0", .start "f2" "A1",
+    .block 5 [],
+    .respond true [.done "f1" 1 1 ["n2.5", "n-1"]],
+    .respond true [.done "f2" 1 2 ["n1.5", "w7"]],
+    .block 5 [.done "f1" 2 1 ["n-3", "n-5"], .state "f2" .paused],
+    .block 5 [.done "f1" 3 1 ["n7"], .done "f2" 2 2 ["n4"]],
+    .edit { name := "f1", sender := "A0", hist := 1, providers := [], thr := 0, timeout := 0, freq := 0, cap := .empty, desc := "do-not-modify" },
+    .start "f1" "A1" ]
+
+def demo : State := run { now := 1700000000000000000 } demoOps
 
 end Irismod.Props.C17
